@@ -469,6 +469,9 @@ CWRAPPER_OUTPUT_TYPE integer_get_mpz(mpz_t a, const basic s)
 CWRAPPER_OUTPUT_TYPE rational_set_si(basic s, long a, long b)
 {
     CWRAPPER_BEGIN
+    if (b == 0) {
+        return SYMENGINE_DIV_BY_ZERO;
+    }
     basic_rcp(s) = SymEngine::Rational::from_mpq(rational_class(a, b));
     CWRAPPER_END
 }
@@ -476,6 +479,9 @@ CWRAPPER_OUTPUT_TYPE rational_set_si(basic s, long a, long b)
 CWRAPPER_OUTPUT_TYPE rational_set_ui(basic s, unsigned long a, unsigned long b)
 {
     CWRAPPER_BEGIN
+    if (b == 0) {
+        return SYMENGINE_DIV_BY_ZERO;
+    }
     basic_rcp(s) = SymEngine::Rational::from_mpq(rational_class(a, b));
     CWRAPPER_END
 }
